@@ -12,7 +12,7 @@ EXTENDS AStarOps, TLC
 
 CONSTANTS H, W,       \* grid size
           CONNS,      \* set of connectivities to explore, subset of {4, 8}
-          MUT         \* "none" | negative twins "manhattan" "diag1" "noclosedskip" "nogreater" "noparent" "popany"
+          MUT         \* "none" | negative twins "hsquared" "diag1" "noclosedskip" "nogreater" "noparent" "popany"
 
 VARIABLES cross, conn, start, goal, open, closed, g, parent, cur, nbrIdx, pc, wcur, path, sp
 vars == <<cross, conn, start, goal, open, closed, g, parent, cur, nbrIdx, pc, wcur, path, sp>>
